@@ -338,6 +338,31 @@ def gen_zone_session(rng, z, nprobe=40, do_find=True, do_findn=False, lookups=Tr
                 yield {"op": "find", "a": f}
 
 
+def gen_project_sec60(rng, n):
+    """UTC date-times built from fields with second 60 (the instant is second 0 of the next minute), projected into zones whose
+    type in force has offset 0 and zones where it has not: the result is always the zone's reading of the instant"""
+    base = rng.randint(10**8, 2 * 10**9)
+    base -= base % 60
+    D = 9999960                                     # a whole number of minutes
+    gmt = {"off": 0, "dst": 0, "des": B("GMT")}
+    bst = {"off": 3600, "dst": 1, "des": B("BST")}
+    lmt = {"off": -75, "dst": 0, "des": B("LMT")}
+    zones = [{"tr": [[base - D, 1], [base, 2], [base + D, 1]], "ty": [lmt, gmt, bst], "lp": [], "rule": {"k": "fixed", "t": dict(gmt)}},
+             {"tr": [], "ty": [gmt], "lp": [], "rule": {"k": "none"}},
+             {"tr": [], "ty": [gmt, bst], "lp": [], "rule": corpus_rule(rng.randrange(1000))},
+             {"tr": [[base, 0]], "ty": [{"off": 0, "dst": 1, "des": B("ZZZ")}], "lp": [], "rule": {"k": "none"}}]
+    for z in zones:
+        yield zone_event(z)
+        for _ in range(max(2, n // len(zones))):
+            u = base + rng.choice([-D - 60, -D, -120, -60, 0, 60, 600, D - 60, D, D + 3600, 60 * rng.randrange(-300000, 300000)])
+            f = fields_of_local(u - 1, rng.choice([0, 999999999]))
+            assert f["s"] == 59
+            f["s"] = 60
+            f["via"] = "utcnew"
+            yield {"op": "project", "a": f}
+            yield {"op": "project", "a": {"t": W(u), "ns": f["ns"], "type": dict(gmt), "via": rng.choice(["utc", "dt"])}}
+
+
 # ---- C03: table-length sweep (every parity of the binary search) ----
 def gen_c03_sweep(rng, nmax):
     for n in range(0, nmax + 1):
@@ -944,6 +969,7 @@ def gen_convenience(rng, n):
 
 
 def gen_c14(rng, n):
+    yield from gen_project_sec60(rng, max(40, n // 300))
     yield from gen_convenience(rng, max(10, n // 400))
     yield from gen_range_end_finds(rng, max(20, n // 200))
     z = gen_table_zone(rng, nmax=10)
